@@ -57,6 +57,23 @@ type pstr struct {
 	Trail bool     `json:"trail"`
 	Pre   string   `json:"pre"`  // procfs alias in front of the name: "" pcwd ptcwd proot pfd
 	Pdir  []string `json:"pdir"` // pfd: the directory the descriptor is opened on
+	Pad   int      `json:"pad"`  // extra slashes at the first separator
+	Mem   memspec  `json:"mem"`  // where the string lies in the probe's memory
+}
+
+type memspec struct {
+	B   string `json:"b"`
+	Gap bool   `json:"gap"`
+}
+
+func (m memspec) token() string {
+	if m.B == "" {
+		return "static:0"
+	}
+	if m.Gap {
+		return m.B + ":1"
+	}
+	return m.B + ":0"
 }
 
 type dkind struct {
@@ -155,7 +172,19 @@ var traced = []string{"open", "openat", "openat2", "readlink", "readlinkat", "un
 // render gives the string handed to the probe and, for pfd, the directory the probe has to open
 // (the probe then prefixes /proc/self/fd/<N>/ itself).
 func render(top, cwd string, p pstr) (string, string) {
-	s := strings.Join(p.Comps, "/")
+	pad := strings.Repeat("/", p.Pad)
+	var s string
+	if p.Abs || p.Pre != "" {
+		// the extra slashes follow the prefix
+		s = pad + strings.Join(p.Comps, "/")
+	} else if len(p.Comps) >= 2 {
+		s = p.Comps[0] + "/" + pad + strings.Join(p.Comps[1:], "/")
+	} else {
+		s = strings.Join(p.Comps, "/")
+		if p.Trail {
+			s += pad
+		}
+	}
 	if p.Trail {
 		s += "/"
 	}
@@ -328,9 +357,10 @@ func runMain(args []string) error {
 			if len(c.Fl) > 0 {
 				fl = strings.Join(c.Fl, ",")
 			}
-			fmt.Fprintf(&script, "%d %s %s %d %s %s %s %s %s %s %s %s %s %s %s %s\n", i, hexs(under(ft, c.Cwd)), c.Sc, c.Acc, fl,
+			fmt.Fprintf(&script, "%d %s %s %d %s %s %s %s %s %s %s %s %s %s %s %s %s %s\n", i, hexs(under(ft, c.Cwd)), c.Sc, c.Acc, fl,
 				c.D1.Lo, c.D1.Hi, hexs(under(ft, c.D1.Dirp)), hexs(s1), hexs(f1),
-				c.D2.Lo, c.D2.Hi, hexs(under(ft, c.D2.Dirp)), hexs(s2), hexs(f2), strings.Join(c.Args, ","))
+				c.D2.Lo, c.D2.Hi, hexs(under(ft, c.D2.Dirp)), hexs(s2), hexs(f2), strings.Join(c.Args, ","),
+				c.P1.Mem.token(), c.P2.Mem.token())
 		}
 		sp := filepath.Join(top, fmt.Sprintf("script.%d", lo))
 		op := filepath.Join(top, fmt.Sprintf("out.%d", lo))
